@@ -333,6 +333,10 @@ def rule_magic(ctx, repo):
             continue
         v = repo.class_attr_value(c, 'MESSAGE_START')
         r.check(v == ch['magic'], name, c.site, 'magic %s' % ch['magic'].hex(), '%s magic is %r, protocol: %s' % (name, v, ch['magic'].hex()))
+    nm = repo.get_module('bitcoin.net')
+    for cn, want in (('PROTO_VERSION', 60002), ('CADDR_TIME_VERSION', 31402)):
+        got = repo.module_value(nm, cn)
+        r.check(got == want, cn, nm.relpath + ':0', str(want), '%s is %r (protocol: %d): the version from which addresses carry a time field / the version announced and assumed by the parsers' % (cn, got, want), sure=True)
 
 
 def rule_address(ctx, repo):
